@@ -44,14 +44,15 @@ static void enc_value(const ref_tval* v, const ref_tform* f, ref_buf* o) {
     case RT_I16: case RT_I32: case RT_I64: ref_buf_zz(o, v->i); break;
     case RT_DOUBLE: ref_buf_put(o, v->raw, 8); break;
     case RT_UUID: ref_buf_put(o, v->raw, 16); break;
-    case RT_BINARY: ref_buf_uleb(o, v->bin_n); ref_buf_put(o, v->bin, v->bin_n); break;
+    case RT_BINARY: ref_buf_uleb(o, v->has_lie ? v->lie : v->bin_n); ref_buf_put(o, v->bin, v->bin_n); break;
     case RT_LIST: case RT_SET:
-        enc_list_header(v->elem_type == RT_FALSE ? RT_TRUE : v->elem_type, v->nitems, f, o);
+        if (v->has_lie) { ref_buf_u8(o, (uint8_t)(0xF0 | (v->elem_type == RT_FALSE ? RT_TRUE : v->elem_type))); ref_buf_uleb(o, v->lie); }
+        else enc_list_header(v->elem_type == RT_FALSE ? RT_TRUE : v->elem_type, v->nitems, f, o);
         for (int k = 0; k < v->nitems; k++) enc_value(&v->items[k], f, o);
         break;
     case RT_MAP:
         if (v->nitems == 0) { ref_buf_u8(o, 0); break; }
-        ref_buf_uleb(o, (uint64_t)(v->nitems / 2)); ref_buf_u8(o, (uint8_t)((v->key_type << 4) | v->elem_type));
+        ref_buf_uleb(o, v->has_lie ? v->lie : (uint64_t)(v->nitems / 2)); ref_buf_u8(o, (uint8_t)((v->key_type << 4) | v->elem_type));
         for (int k = 0; k < v->nitems; k++) enc_value(&v->items[k], f, o);
         break;
     case RT_STRUCT: enc_struct(v, f, o); break;
